@@ -569,6 +569,10 @@ inline typename Enable_If<(!Safe_Conversion<T1, T2>::value
 lt(const T1& x, const T2& y) {
   PPL_DIRTY_TEMP(T1, tmp);
   Result r = assign_r(tmp, y, ROUND_UP);
+  if (result_class(r) == VC_NAN) {
+    // Unordered.
+    return false;
+  }
   if (!result_representable(r)) {
     return true;
   }
@@ -595,6 +599,10 @@ le(const T1& x, const T2& y) {
   // code this in checked_float_inlines.hh, probably it's faster also
   // if fpu supports inexact check.
   PPL_ASSERT(r != V_LE && r != V_GE && r != V_LGE);
+  if (result_class(r) == VC_NAN) {
+    // Unordered.
+    return false;
+  }
   if (!result_representable(r)) {
     return true;
   }
